@@ -118,6 +118,9 @@ def mount_stages(ctx, attr=None, with_add=False):
     if attr:
         args += ["--attr", attr]
     graph_stage(ctx, "mount", "MC_Mount.tla", cfg, "mount", ["mountmem"], args, workers=8, frontier=True)
+    if ctx.tier != "quick":
+        # two steps from every layout with at most one mount point (107 165 states): a seeded tenth of them
+        graph_stage(ctx, "mount-2steps", "MC_Mount.tla", "Mount.steps2.cfg", "mount", ["mountmem"], args, workers=8, frontier=True, sample=0.1)
     if with_add:
         mountadd_stages(ctx)
         if ctx.tier != "quick":
@@ -125,7 +128,8 @@ def mount_stages(ctx, attr=None, with_add=False):
             # constituent file system failing; what is seen is reported in the notes, never as a verdict
             graph_stage(ctx, "mount-rename-faults", "MC_Mount.tla", "Mount.quick.cfg", "mount", ["mountfault"], ["--names", "a,ab,b,f", "--depth", "4"], workers=8, frontier=True)
             info = sorted(set(d["sig"].split(" ", 2)[2] for d in ctx.divs if d["prop"] == "INFO"))
-            ctx.divs = [d for d in ctx.divs if d["prop"] != "INFO"]
+            # the stage exists for the fault enumeration only: what mount.FS does without faults is judged on "mountmem"
+            ctx.divs = [d for d in ctx.divs if d["prop"] != "INFO" and d.get("adapter") != "mountfault"]
             if info:
                 ctx.notes.append("informational (faults are outside C06): a cross-mount Rename interrupted by a failing primitive call can fail half done: " + "; ".join(info))
 
